@@ -311,9 +311,14 @@ def _multipoint_job(k):
     flow = dict(alpha=[a0, a1], v=[200.0, 170.0], rho=[0.5, 0.7], Mach_number=[0.6, 0.5], re=[1e6, 2e6], load_factor=[1.0, 2.5], beta=[0.0, 0.0])
     m = B.ASModel([s], flow=flow, npoints=2, rng=np.random.default_rng(5))
     m.run()
-    p0 = _key_outputs(m, ("AS_point_0",))
     bad = []
-    # changing point 1's inputs leaves point 0 bitwise unchanged
+    # changing point 1's inputs leaves point 0 bitwise unchanged: compared with a twin model that is simply run a second time (a
+    # second run_model restarts the coupled iteration of every point from its converged state and may move it by the solver
+    # tolerance - that is not an influence of point 1)
+    twin = B.ASModel([s], flow=flow, npoints=2, rng=np.random.default_rng(5))
+    twin.run()
+    twin.run()
+    p0 = _key_outputs(twin, ("AS_point_0",))
     for name, val in (("alpha_1", a1 + 2.0), ("v_1", 150.0), ("load_factor_1", -1.0), ("rho_1", 0.9)):
         m.prob.set_val(name, val)
     m.run()
